@@ -436,6 +436,16 @@ func (i *interpreter) mergeValues(cond sym, a, b value) (value, bool) {
 		return a, true
 	}
 	switch a := a.(type) {
+	case iface:
+		bi, ok := b.(iface)
+		if !ok || a.t == nil || !sameType(a.t, bi.t) {
+			return nil, false
+		}
+		m, ok := i.mergeValues(cond, a.v, bi.v)
+		if !ok {
+			return nil, false
+		}
+		return iface{t: a.t, v: m}, true
 	case structure:
 		bs, ok := b.(structure)
 		if !ok || len(a) != len(bs) {
